@@ -148,7 +148,15 @@ XercesDocumentWrapper::create(
 
 XercesDocumentWrapper::~XercesDocumentWrapper()
 {
-    destroyWrapper();
+    // Delete the nodes, which is what the members cannot do for
+    // themselves.  destroyWrapper() also makes the wrapper ready for
+    // another build, and allocates a navigator for that, which a
+    // destructor must not do: a refused allocation would terminate
+    // the process.
+    std::for_each(
+            m_nodes.begin(),
+            m_nodes.end(),
+            DeleteFunctor<XalanNode>(m_nodes.getMemoryManager()));
 }
 
 
